@@ -27,6 +27,26 @@ pub mod site {
 pub trait Scheduler: Send + Sync {
     /// Preemption point; returns once `pred()` holds and the caller may run.
     fn block_until(&self, site: u32, pred: &dyn Fn() -> bool);
+    /// Like [`Scheduler::block_until`] for the lock sites, naming the lock (by address) the caller
+    /// is about to take, so that a scheduler can model the lock's queueing policy (parking_lot
+    /// keeps new readers out as soon as a writer waits).
+    fn block_until_on(&self, site: u32, lock: usize, pred: &dyn Fn() -> bool) {
+        let _ = lock;
+        self.block_until(site, pred)
+    }
+    /// A recursive shared acquisition (`read_recursive`): it waits while the lock is held
+    /// exclusively (`free` is false); behind a waiting writer it still goes ahead if the lock is
+    /// held shared at that moment (`shared_now`), which is what parking_lot does.
+    fn block_until_shared(
+        &self,
+        site: u32,
+        lock: usize,
+        free: &dyn Fn() -> bool,
+        shared_now: &dyn Fn() -> bool,
+    ) {
+        let _ = shared_now;
+        self.block_until_on(site, lock, free)
+    }
     /// Called by a parent thread before `thread::spawn`; returns a logical id.
     fn alloc_thread(&self) -> usize;
     /// First call of a spawned thread; returns once it is scheduled.
@@ -61,6 +81,25 @@ pub fn uninstall() {
 pub fn block_until(site: u32, pred: impl Fn() -> bool) {
     if let Some(s) = get() {
         s.block_until(site, &pred);
+    }
+}
+
+#[inline]
+pub fn block_until_on(site: u32, lock: usize, pred: impl Fn() -> bool) {
+    if let Some(s) = get() {
+        s.block_until_on(site, lock, &pred);
+    }
+}
+
+#[inline]
+pub fn block_until_shared(
+    site: u32,
+    lock: usize,
+    free: impl Fn() -> bool,
+    shared_now: impl Fn() -> bool,
+) {
+    if let Some(s) = get() {
+        s.block_until_shared(site, lock, &free, &shared_now);
     }
 }
 
